@@ -39,6 +39,14 @@ def gen_layer(rng, idx):
             if spec.get('args') and not spec.get('kwbind') and not spec.get('combined') and rng.random() < 0.15:
                 spec['posbind'] = list(spec['args'])
                 spec['args'] = [f'u{i}' for i in range(len(spec['posbind']))]
+    # an argument annotated `Output`: `def z(y: Output)` reads the layer's own output `y` (a field defined in the same class body)
+    if d['k'] == 'transform' and len(d.get('fields', {})) >= 2 and rng.random() < 0.25:
+        names = sorted(d['fields'])
+        z, y = rng.sample(names, 2)
+        spec = d['fields'][z]
+        if not spec.get('posbind') and not spec.get('kwbind') and not spec.get('combined') and y not in spec.get('args', []):
+            spec['args'] = [y] + list(spec.get('args', []))
+            spec['outargs'] = [y]
     # the malformed stream (about one layer in six): a private name that nothing defines, two key arguments or a redefined `id`
     # in a Source, `__inherit__` together with `__exclude__`, a listed name that the layer defines itself, parameters that need
     # each other
@@ -71,6 +79,8 @@ def model_desc(b, d):
         for spec in m.get(group, {}).values():
             if spec.get('posbind'):
                 spec['args'] = spec.pop('posbind')        # the names the edge is bound to
+            if spec.get('outargs'):
+                spec['args'] = [('out:' + a if a in spec['outargs'] else a) for a in spec['args']]
     if d['k'] == 'apply':
         # `Apply(name=f, ...)` builds the container of a Transform that inherits everything and redefines `name` as f(name)
         return {'k': 'transform', 'cls': 'Apply', 'fields': {n: {'args': [n], 'f': f} for n, f in d['fns'].items()}, 'params': {},
